@@ -2,6 +2,7 @@ import Proofs.StyleImage
 import Proofs.StyleSites
 import Proofs.DrawText
 import Proofs.StyleGuards
+import Proofs.DecoWords
 /-!
 C12 — style strings mean what git's colour language says they mean.
 
@@ -432,5 +433,212 @@ theorem configured_style_tests_are_modelled :
       r.field ∈ Generated.StyleGuards.updateCalls.flatMap fun c => optOperands c.wsErr ++ optOperands c.nonEmph) ∧
     (∀ r ∈ Generated.StyleGuards.configStyleReads, r.use = "part" → r.detail ≠ "is_emph") :=
   inventory_facts
+
+/-! ### Decoration words inside style strings (`src/parse_style.rs`, `src/config.rs`)
+
+`box`, `ul`, `ol`, `underline`, `overline`, `none`, `plain` select the decoration drawn around commit / file / hunk-header /
+merge-conflict / grep header text. They are read by `_extract_special_decoration_attributes` (word table:
+`Generated.StyleTables.decoWords`) in two contexts: a `*-decoration-style` string (`DecorationStyle::from_str`) and the
+element's own style string (`Style::from_str_with_handling_of_special_decoration_attributes`, the parser of the eleven
+sites of `Generated.StyleSites` with that callee). `Generated.DecoArms` holds the `bitflags!` bits, the arms of the two
+`match special_attributes`, the checks and the `--color-only` block of `Config::from`; `DecoWords.parseDecoT` /
+`fromStrSpecialT` / `configStyleT` run them. `DecoWords.stripped s` = the style string with its decoration words removed,
+`DecoWords.textPart st` = what the painted text carries (colours, attributes, omit / raw / syntax). -/
+
+open DecoWords in
+/-- **The hand-written decoration model is the source's match arms**: evaluated arm by arm over the generated tables,
+`DecorationStyle::from_str` and `from_str_with_handling_of_special_decoration_attributes` are the functions
+`DeltaStyle.parseDeco` / `fromStrSpecial` that the `style.parse` correspondence, `DrawTextRun` and the theorems above use. -/
+theorem decoration_model_follows_the_source_arms (env : Env) (d : Option DStyle) (s : List Char)
+    (decoS : Option (List Char)) :
+    parseDecoT env s = parseDeco env s ∧ fromStrSpecialT env d s decoS = fromStrSpecial env d s decoS :=
+  ⟨parseDecoT_eq env s, fromStrSpecialT_eq env d s decoS⟩
+
+example : DecoWords.fromStrSpecialT ⟨true, fun _ _ _ => 0⟩ none "Yellow BOX ul".toList (some "blue ul".toList) =
+    .ok { ansi := { fg := some (.basic 3), underline := true }, deco := some (.box, { fg := some (.basic 4) }) } := by
+  decide
+
+open DecoWords in
+/-- **(a, c) Decoration words never change the text's colours and attributes**: the text part of an element style is
+the parse — hence, by `parse_eq_denote`, the declarative reading — of the string with its decoration words removed; the
+decoration option's string plays no part in it. So two style strings that differ only in decoration words (and any two
+decoration strings) give text painted alike. -/
+theorem decoration_words_never_change_text_attributes (env : Env) (d : Option DStyle) (s : List Char)
+    (decoS : Option (List Char)) (st : DStyle) (h : fromStrSpecial env d s decoS = .ok st) :
+    denote env d (stripped s) = .ok (textPart st) ∧ st.isEmph = false ∧
+    (∀ s' decoS' st', fromStrSpecial env d s' decoS' = .ok st' → stripped s' = stripped s → textPart st' = textPart st) := by
+  obtain ⟨h1, h2, _⟩ := fromStrSpecial_ok env d s decoS st h
+  refine ⟨by rw [← parse_eq_denote]; exact h1, h2, ?_⟩
+  intro s' decoS' st' h' hs
+  have h1' := (fromStrSpecial_ok env d s' decoS' st' h').1
+  rw [hs, h1] at h1'
+  injection h1' with h1'
+  exact h1'.symm
+
+/-- `--file-style 'yellow ul box'` with `--file-decoration-style 'blue ol'` and `--file-style 'ul yellow'` with no
+decoration: the same text part (yellow, underlined). -/
+example : DecoWords.stripped "yellow ul box".toList = "yellow ul".toList ∧
+    (fromStrSpecial ⟨true, fun _ _ _ => 0⟩ none "yellow ul box".toList (some "blue ol".toList)).map DecoWords.textPart =
+      .ok { ansi := { fg := some (.basic 3), underline := true } } ∧
+    (fromStrSpecial ⟨true, fun _ _ _ => 0⟩ none "ul yellow".toList none).map DecoWords.textPart =
+      .ok { ansi := { fg := some (.basic 3), underline := true } } := by decide
+
+open DecoWords in
+/-- **(a) The exact rule, per kind of option.** In an element's own style string (clean words: lower case, no quotes)
+attribute `a` is set exactly when some word is an attribute word for `a` that is *not* taken out as a decoration request,
+and the decoration requested is that of the words of `wordsFor false`; in a `*-decoration-style` string the shape is that
+of the words of `wordsFor true`. On the generated tables: `ul` is a text attribute in an element style and a shape word
+only in a decoration string; `underline` is a text attribute for the parser (`minus-style` etc.) but in an element style it
+is taken out as a decoration request and never underlines the text; likewise `box` / `overline`; `ol` is a shape word in a
+decoration string only (elsewhere it is read as a colour and rejected); `none` / `plain` are dropped in both. -/
+theorem decoration_words_exact_rule :
+    (∀ env d s decoS st, CleanWords (words s) → fromStrSpecial env d s decoS = .ok st →
+      (∀ a, st.ansi.get a = (words s).any fun w => decide (w ∈ attrWords a ∧ w ∉ elementDecoWords)) ∧
+      (extractDeco false s).1 =
+        ⟨(words s).any fun w => decide (w ∈ wordsFor false "BOX"), (words s).any fun w => decide (w ∈ wordsFor false "OVERLINE"),
+         (words s).any fun w => decide (w ∈ wordsFor false "UNDERLINE")⟩) ∧
+    (∀ s, (extractDeco true s).1 =
+        ⟨(words s).any fun w => decide (w ∈ wordsFor true "BOX"), (words s).any fun w => decide (w ∈ wordsFor true "OVERLINE"),
+         (words s).any fun w => decide (w ∈ wordsFor true "UNDERLINE")⟩) ∧
+    attrWords .underline = ["ul", "underline"] ∧
+    elementDecoWords = ["box", "overline", "underline", "none", "plain"] ∧
+    (wordsFor false "BOX", wordsFor false "OVERLINE", wordsFor false "UNDERLINE") = (["box"], ["overline"], ["underline"]) ∧
+    (wordsFor true "BOX", wordsFor true "OVERLINE", wordsFor true "UNDERLINE") =
+      (["box"], ["overline", "ol"], ["underline", "ul"]) ∧
+    (∀ a, a ≠ Sgr.Attr.underline → ∀ w ∈ attrWords a, w ∉ elementDecoWords) ∧
+    effectOf "ol" = none ∧ effectOf "box" = none ∧ effectOf "overline" = none :=
+  ⟨fun env d s decoS st hc h => element_style_rule env d s decoS st hc h, decoration_string_rule,
+   by decide, by decide, by decide, by decide, by intro a; cases a <;> decide, by decide, by decide, by decide⟩
+
+/-- The hypothesis `CleanWords` is met by ordinary strings, and is needed: a quoted empty word is a colour word (an
+error) for the parser, but vanishes when the stripped string is re-joined. -/
+example : DecoWords.CleanWords (words "yellow ul box #ffeeee".toList) ∧
+    ¬ DecoWords.CleanWords (words "red ''".toList) ∧
+    (fromStrSpecial ⟨true, fun _ _ _ => 0⟩ none "red ''".toList none).map DecoWords.textPart =
+      .ok { ansi := { fg := some (.basic 1) } } ∧
+    denoteWords ⟨true, fun _ _ _ => 0⟩ none ((words "red ''".toList).filter fun w => (DecoWords.classify false w).isNone) =
+      .error (.invalidColor "") := by decide
+
+/-- **`ul` and `underline` are not synonyms in an element style** (witness; `delta --help`, STYLES: "'ul' (or
+'underline')", "All options that have a name like --*-style work the same way"): `--file-style 'yellow ul'` underlines
+the file name and requests no decoration; `--file-style 'yellow underline'` does not underline it and requests an underline
+rule instead — while in `--minus-style` both spellings underline the text. -/
+theorem underline_spelling_in_element_style_is_a_decoration_request :
+    (fromStrSpecial ⟨true, fun _ _ _ => 0⟩ none "yellow ul".toList (some "none".toList)) =
+      .ok { ansi := { fg := some (.basic 3), underline := true }, deco := none } ∧
+    (fromStrSpecial ⟨true, fun _ _ _ => 0⟩ none "yellow underline".toList (some "none".toList)) =
+      .ok { ansi := { fg := some (.basic 3), underline := false }, deco := some (.ul, {}) } ∧
+    (parseAnsi ⟨true, fun _ _ _ => 0⟩ none "yellow underline".toList) = parseAnsi ⟨true, fun _ _ _ => 0⟩ none "yellow ul".toList := by
+  decide
+
+open DecoWords in
+/-- **(b) The decoration kind is a function of the set of decoration words only**: two strings whose word lists have the
+same members — any order, any repetition, any letter case (`words` sees the lower-cased string only) — request the same
+decoration attributes, in a decoration string (`b = true`) and in an element style (`b = false`); and the words that matter
+are those of the generated table (every other word stays in the style string). -/
+theorem decoration_kind_depends_on_word_set_only (b : Bool) (s s' : List Char)
+    (h : ∀ w, w ∈ words s ↔ w ∈ words s') :
+    (extractDeco b s).1 = (extractDeco b s').1 ∧ (extractDeco b s).1.kind = (extractDeco b s').1.kind ∧
+    (∀ t t' : List Char, lower t = lower t' → extractDeco b t = extractDeco b t') ∧
+    (∀ w flag, classify b w = some flag → w ∈ Generated.StyleTables.decoWords.map (·.1)) := by
+  have h1 : (extractDeco b s).1 = (extractDeco b s').1 := by
+    unfold extractDeco
+    exact attrs_of_same_word_set b _ _ h
+  refine ⟨h1, by rw [h1], ?_, classify_some_mem b⟩
+  intro t t' ht
+  simp [extractDeco, words, ht]
+
+example : (∀ w, w ∈ words "ol red BOX ul ul".toList ↔ w ∈ words "Ul box 'red' OL box".toList) ∧
+    (extractDeco true "ol red BOX ul ul".toList).1.kind = some .boxulol := by
+  refine ⟨?_, by decide⟩
+  have h1 : words "ol red BOX ul ul".toList = ["ol", "red", "box", "ul", "ul"] := by decide
+  have h2 : words "Ul box 'red' OL box".toList = ["ul", "box", "red", "ol", "box"] := by decide
+  intro w
+  rw [h1, h2]
+  simp only [List.mem_cons, List.not_mem_nil, or_false]
+  constructor <;> (intro h; rcases h with h | h | h | h | h <;> simp [h])
+
+open DecoWords in
+/-- **(d) Conflicting requests resolve as the match arms say, totally.** Every set of decoration attributes is caught by
+an explicit arm of `DecorationStyle::from_str` (kind = `DecoAttrs.kind` of the set: `box` + `ul` + `ol` =
+`BoxWithUnderOverline`, …) and of `apply_special_decoration_attributes` (no word: the decoration option's own decoration is
+kept; otherwise the words' kind *replaces* the option's kind and keeps its colours); the trailing arms (`_ if is_omitted`,
+`_ => delta_unreachable`, `_ => NoDecoration`) are dead: for no style string, decoration string, default and depth does
+either parser reach `delta_unreachable`, and the only failures are the fatal errors of the two word parses (an invalid colour
+word, a third colour, `syntax` as background; `raw` / `syntax` in a decoration string). -/
+theorem conflicting_decoration_requests_resolve_totally (env : Env) (d : Option DStyle) (s : List Char)
+    (decoS : Option (List Char)) :
+    (∀ a om, runArms Generated.DecoArms.decoFromStrArms (attrBits a) om = .kind a.kind) ∧
+    (∀ a, runArms Generated.DecoArms.decoApplyArms (attrBits a) false =
+      (match a.kind with | none => .keep | some k => .kind (some k))) ∧
+    parseDecoT env s ≠ .error .unreachable ∧
+    fromStrSpecialT env d s decoS ≠ .error .unreachable ∧
+    (∀ e, fromStrSpecialT env d s decoS = .error e →
+      parseAnsi env d (stripped s) = .error e ∨ parseDecoT env (decoS.getD []) = .error e) ∧
+    (∀ st, fromStrSpecialT env d s decoS = .ok st → ∃ dd, parseDecoT env (decoS.getD []) = .ok dd ∧
+      st.deco = (match (extractDeco false s).1.kind with
+        | none => dd
+        | some k => some (k, match dd with | some (_, a) => a | none => {}))) := by
+  refine ⟨runArms_fromStr, runArms_apply, ?_, ?_, ?_, ?_⟩
+  · rw [parseDecoT_eq]; exact parseDeco_not_unreachable env s
+  · rw [fromStrSpecialT_eq]; exact fromStrSpecial_not_unreachable env d s decoS
+  · intro e h
+    rw [fromStrSpecialT_eq] at h
+    rw [parseDecoT_eq]
+    exact fromStrSpecial_error env d s decoS e h
+  · intro st h
+    rw [fromStrSpecialT_eq] at h
+    rw [parseDecoT_eq]
+    exact (fromStrSpecial_ok env d s decoS st h).2.2
+
+/-- `--file-style 'yellow box'` over the default `--file-decoration-style 'blue ul'`: a blue box, not a box with an
+underline (the words' kind replaces the option's); `box ul ol` in one decoration string is the seventh variant; an
+element style that is only decoration words leaves the text plain. -/
+example :
+    (fromStrSpecial ⟨true, fun _ _ _ => 0⟩ none "yellow box".toList (some "blue ul".toList)).map (·.deco) =
+      .ok (some (.box, { fg := some (.basic 4) })) ∧
+    parseDeco ⟨true, fun _ _ _ => 0⟩ "ol red box bold green ul".toList =
+      .ok (some (.boxulol, { fg := some (.basic 1), bg := some (.basic 2), bold := true })) ∧
+    (fromStrSpecial ⟨true, fun _ _ _ => 0⟩ none "overline underline".toList none) =
+      .ok { deco := some (.ulol, {}) } ∧
+    parseDeco ⟨true, fun _ _ _ => 0⟩ "raw ul".toList = .error .rawInDecoration := by decide
+
+open DecoWords in
+/-- **`--color-only` ignores decorations requested inside a style string** (repair 7cc61e9): for the styles whose
+`*-decoration-style` option `set_options` resets under `--color-only` — which are exactly the keys the block of `Config::from`
+clears (generated: guard `opt.color_only`, value `NoDecoration`) — the configured style has no decoration whatever words
+either string holds, and its text part is that of the same strings without `--color-only`; without `--color-only`
+nothing is cleared. -/
+theorem color_only_ignores_decoration_words (env : Env) (key : String) (s : List Char) (decoS : Option (List Char)) :
+    Generated.DecoArms.colorOnlyClears = ["commit-style", "file-style", "hunk-header-style"] ∧
+    ((Generated.StyleSites.styleCallSites.filter fun x =>
+        x.kind = "option" ∧ x.callee = "style_from_str_with_handling_of_special_decoration_attributes" ∧
+        StyleRewrites.colorOnlyFields.any fun f => x.decoArg == "Some(&opt." ++ f ++ ")").map (·.name)) =
+      Generated.DecoArms.colorOnlyClears ∧
+    (key ∈ Generated.DecoArms.colorOnlyClears → ∀ st, configStyleT env true key s decoS = .ok st →
+      st.deco = none ∧ ∃ st0, fromStrSpecial env none s decoS = .ok st0 ∧ textPart st = textPart st0) ∧
+    configStyleT env false key s decoS = fromStrSpecial env none s decoS := by
+  refine ⟨by decide, by decide, ?_, ?_⟩
+  · intro hk st h
+    unfold configStyleT at h
+    rw [fromStrSpecialT_eq] at h
+    cases h0 : fromStrSpecial env none s decoS with
+    | error e => simp [h0] at h
+    | ok st0 =>
+      simp only [h0, clear_true key st0 hk] at h
+      injection h with h
+      subst h
+      exact ⟨rfl, st0, rfl, rfl⟩
+  · unfold configStyleT
+    rw [fromStrSpecialT_eq]
+    cases fromStrSpecial env none s decoS with
+    | error e => rfl
+    | ok st0 => simp only [clear_false]
+
+/-- `--color-only --file-style 'yellow box ul'` (any decoration string): yellow, underlined text, no decoration. -/
+example : DecoWords.configStyleT ⟨true, fun _ _ _ => 0⟩ true "file-style" "yellow box ul".toList (some "blue ol".toList) =
+    .ok { ansi := { fg := some (.basic 3), underline := true }, deco := none } ∧
+    DecoWords.configStyleT ⟨true, fun _ _ _ => 0⟩ false "file-style" "yellow box ul".toList (some "blue ol".toList) =
+    .ok { ansi := { fg := some (.basic 3), underline := true }, deco := some (.box, { fg := some (.basic 4) }) } := by decide
 
 end C12
